@@ -298,3 +298,74 @@ def enc_json(v, lim=600):
     except Exception:  # noqa: BLE001
         s = repr(v)
     return s if lim is None else s[:lim]
+
+
+# ----------------------------------------------------------------------------- generic comparison
+def flat(v):
+    if isinstance(v, (list, tuple)):
+        out = []
+        for i in v:
+            out += flat(i)
+        return out
+    return [v]
+
+
+def shape_of(v):
+    if isinstance(v, (list, tuple)):
+        return [len(v)] + (shape_of(v[0]) if len(v) else [])
+    return []
+
+
+def py(v):
+    """numpy containers/scalars -> plain Python nested lists/floats/bools/ints."""
+    import numpy as np
+    if isinstance(v, np.ndarray):
+        return v.tolist()
+    if isinstance(v, (list, tuple)):
+        return [py(i) for i in v]
+    if isinstance(v, np.bool_):
+        return bool(v)
+    if isinstance(v, np.integer):
+        return int(v)
+    if isinstance(v, np.floating):
+        return float(v)
+    return v
+
+
+def err_compare(io, mo):
+    """None if neither is an error, else 'ok'/'diff:...'."""
+    if is_err(io) or is_err(mo):
+        if is_err(io) and is_err(mo):
+            return "ok" if io[1] == mo[1] else f"diff:error kinds impl={io[1]} model={mo[1]}"
+        return f"diff:impl={'err ' + io[1] if is_err(io) else 'value'} model={'err ' + mo[1] if is_err(mo) else 'value'}"
+    return None
+
+
+def std_compare(io, mo, tol=1e-12, scale=None):
+    """Structural compare of implementation output with decoded model output (numbers within tol*scale, rest exact)."""
+    e = err_compare(io, mo)
+    if e is not None:
+        return e
+    mv = tofloat(mo)
+
+    def walk(a, b, path):
+        if isinstance(a, (list, tuple)) or isinstance(b, (list, tuple)):
+            if not (isinstance(a, (list, tuple)) and isinstance(b, (list, tuple))):
+                return f"diff:structure at {path}"
+            if len(a) != len(b):
+                return f"diff:length {len(a)} vs {len(b)} at {path}"
+            for k, (x, y) in enumerate(zip(a, b)):
+                r = walk(x, y, path + [k])
+                if r:
+                    return r
+            return None
+        if isinstance(a, bool) or isinstance(b, bool) or a is None or b is None or isinstance(a, str) or isinstance(b, str):
+            return None if a == b else f"diff:{a!r} vs {b!r} at {path}"
+        import math
+        if isinstance(a, float) and math.isnan(a):
+            return f"diff:impl NaN vs {b!r} at {path}"
+        return None if abs(float(a) - float(b)) <= tol * sc else f"diff:{float(a)!r} vs {float(b)!r} at {path}"
+
+    nums = [abs(float(x)) for x in flat(io) if isinstance(x, (int, float)) and not isinstance(x, bool) and x == x]
+    sc = scale if scale is not None else max([1.0] + nums)
+    return walk(io, mv, []) or "ok"
